@@ -171,6 +171,7 @@ retry_fetch_lv:
     if (root == nullptr) {
         LOG(ERROR) << log_location_prefix << "unexpected process.";
     }
+    YAKUSHIMA_VERIF_HOOK(YAKUSHIMA_VERIF_LAYER, nullptr);
     goto retry_find_border; // NOLINT
 }
 
